@@ -208,6 +208,42 @@ def classify_denominator(pm, u, f, den, te):
         return "explicit-guard"
     if s.replace(" ", "") in ("1+s*M**2", "(1+s*M**2)"):
         return ">=1 by construction"
+
+    def _def_of(name):
+        if f is None:
+            return None
+        ds = [s_ for s_ in ast.walk(f) if isinstance(s_, ast.Assign) and len(s_.targets) == 1 and isinstance(s_.targets[0], ast.Name) and s_.targets[0].id == name]
+        return ds[0].value if len(ds) == 1 else None
+
+    def _nonneg(e, depth=0):
+        """a factor that cannot be negative: an even power, a square, an absolute value, a non-negative constant, counts from np.arange"""
+        if depth > 4:
+            return False
+        if isinstance(e, ast.Constant) and isinstance(e.value, (int, float)) and not isinstance(e.value, bool):
+            return e.value >= 0
+        if isinstance(e, ast.BinOp) and isinstance(e.op, ast.Pow) and isinstance(e.right, ast.Constant) and isinstance(e.right.value, int) and e.right.value % 2 == 0:
+            return True
+        if isinstance(e, ast.BinOp) and isinstance(e.op, ast.Mult):
+            if norm_src(e.left) == norm_src(e.right):
+                return True
+            return _nonneg(e.left, depth + 1) and _nonneg(e.right, depth + 1)
+        if isinstance(e, ast.Call):
+            last = (call_name(e) or "").split(".")[-1]
+            if last in ("square", "abs", "absolute"):
+                return True
+            if last == "arange" and 1 <= len(e.args) <= 1:
+                return True
+            if last in ("reshape", "astype") and isinstance(e.func, ast.Attribute):
+                return _nonneg(e.func.value, depth + 1)
+        if isinstance(e, ast.Name):
+            d = _def_of(e.id)
+            return d is not None and _nonneg(d, depth + 1)
+        return False
+    if isinstance(den, ast.BinOp) and isinstance(den.op, ast.Add):
+        ones = [x for x in (den.left, den.right) if isinstance(x, ast.Constant) and x.value == 1]
+        rest = [x for x in (den.left, den.right) if not (isinstance(x, ast.Constant) and x.value == 1)]
+        if len(ones) == 1 and len(rest) == 1 and _nonneg(rest[0]):
+            return ">=1 by construction"
     if "self.temperature" in chains or "self.n_features_in_" in chains or "self.n_hidden_dim" in chains:
         return "validated-positive"
     # a hyper-parameter whose constraint table only admits positive numbers
@@ -234,6 +270,12 @@ def classify_denominator(pm, u, f, den, te):
             return "clipped-probability"
     if f is not None and f.name == "mlp_prox_grad" and names == {"norm_v"}:
         return "scope-excluded (zero skip rows are outside C05's quantifier)"
+    if f is not None and f.name == "mlp_prox_grad" and isinstance(den, ast.Name):
+        d_ = _def_of(den.id)
+        p0 = f.args.args[0].arg if f.args.args else None
+        if isinstance(d_, ast.Call) and (call_name(d_) or "").endswith("linalg.norm") and d_.args and (
+                norm_src(d_.args[0]) == p0 or (isinstance(d_.args[0], ast.Name) and isinstance(_def_of(d_.args[0].id), ast.Name) and _def_of(d_.args[0].id).id == p0)):
+            return "scope-excluded (zero skip rows are outside C05's quantifier)"
     if names <= {"u", "df"} and f is not None and f.name == "multivariate_student_t":
         return "chi-square draw (positive almost surely), validated df > 0"
     if names and names <= {"N", "n"}:
